@@ -9,6 +9,10 @@ import re
 from props import prop
 
 DOC_ORDER = ["server::ServerState", "server::Session", "server::AddressSpace"]
+# Says WHICH edge of an already detected cycle is the out-of-line one (never whether there is a cycle): the documented
+# order with the per-connection SessionManager in front, as every site but the method-call path takes it (see
+# graph.rs::REF_ORDER). No acquisition count enters the decision.
+REF_ORDER = ["server::SessionManager"] + DOC_ORDER
 KIND = {0: "mutex", 1: "read", 2: "write"}
 
 
@@ -183,14 +187,13 @@ def judge(edges):
                     why.append("%s is only ever read-locked in this log" % a)
             sig += cyc[0]
             if can_block and not all(_is_client(c) for c in cyc):
-                counts = [edges[(cyc[i], cyc[(i + 1) % n])]["count"] for i in range(n)]
                 for i in range(n):
                     a, b = cyc[i], cyc[(i + 1) % n]
-                    if a in DOC_ORDER and b in DOC_ORDER:
-                        # where the documentation gives the order, it says which edge is the wrong one
-                        wrong = DOC_ORDER.index(a) > DOC_ORDER.index(b)
+                    if a in REF_ORDER and b in REF_ORDER:
+                        wrong = REF_ORDER.index(a) > REF_ORDER.index(b)
                     else:
-                        wrong = counts[i] <= 4 * min(counts)
+                        # the reference order is silent: every edge of the cycle is named
+                        wrong = True
                     if wrong:
                         inversions.add((a, b))
             if all(_is_client(c) for c in cyc):
@@ -207,8 +210,9 @@ def judge(edges):
             by_file.setdefault(f.rsplit(":", 1)[0], []).append("%s then %s" % (f, t))
         for file, pairs in sorted(by_file.items()):
             out.append(("inversion|%s>%s|held@%s" % (a, b, file),
-                        "%s is held while %s is taken, against the prevailing order (the opposite order is the common one); "
-                        "acquisition site pairs with the outer lock taken in %s: %s" % (a, b, file, "; ".join(pairs)), True))
+                        "%s is held while %s is taken, closing a lock-order cycle (against the order SessionManager, ServerState, "
+                        "Session, AddressSpace where that order covers both classes); acquisition site pairs with the outer lock "
+                        "taken in %s: %s" % (a, b, file, "; ".join(pairs)), True))
     for (a, b), e in sorted(edges.items()):
         if a != b:
             continue
@@ -349,9 +353,12 @@ prop(
                "CLASS: an inversion between two instances that can never be the same pair, or one always nested in a common "
                "exclusive outer lock, is still reported, because the property asks for one order; the detail names the "
                "sites so this can be told. Signatures: cycle|A>B>A (chordless cycles, rotation starting at the smallest class "
-               "name), order|X>Y (edge against the documented order), and inversion|A>B|held@file for the rarely seen edge(s) of "
-               "each cycle (count within 4x of the rarest edge), one per source file in which the outer lock is taken, so that "
-               "a new place taking two classes in an already-known wrong order is a new finding. The monitor keeps only the "
+               "name), order|X>Y (edge against the documented order), and inversion|A>B|held@file for the out-of-line edge(s) of "
+               "each cycle, one per source file in which the outer lock is taken, so that a new place taking two classes in an "
+               "already-known wrong order is a new finding. Out of line means against SessionManager -> ServerState -> Session "
+               "-> AddressSpace (the documented order with the per-connection SessionManager in front, as every site but the "
+               "method-call path takes it); for a cycle through a class outside that list every edge is named. Acquisition "
+               "counts never enter a verdict or a signature. The monitor keeps only the "
                "first acquisition-site pair per class edge; the harness samples and resets it about four times a second and "
                "keeps every window's pair, so a rare site pair that always fires after a common one inside every window can "
                "still be hidden. Two different instances of one class held together are recorded but not judged (instance "
